@@ -170,7 +170,7 @@ Section overflow_cyg.
       rewrite (leave_in 0 gd ms CYG s2 bk a t0 (ridx s) d t1 _ (d + 1) S2' F2 En2) by (try assumption; lia).
       cbn [recs]. assert (EL : (ms <=? d) = false) by (apply N.leb_gt; exact Hin). rewrite EL.
       fold Rk.
-      assert (E0 : (0 <? t1 - t0) = true) by (apply N.ltb_lt; lia). rewrite E0. cbn [orb].
+      assert (E0 : (0 <=? t1 - t0) = true) by (apply N.leb_le; lia). rewrite E0. cbn [orb].
       eexists. split; [reflexivity|].
       exists true. cbn [fc enabled cached ridx stack out is_nil].
       repeat split; try assumption; try congruence.
